@@ -195,6 +195,8 @@ PROPERTIES["C01"] = {
     "jobs": [
         K("c01_replay_fidelity_3", module="kp", timeout=900),
         K("c13_budget_replay_once", module="kp", timeout=600),
+        K("c01_data_seed_reproduces_each_execution", module="kp", timeout=900),
+        K("c01_nd_checker_record_then_replay", module="kp", timeout=900),
     ],
     "functions_encoded": [
         "shuttle_schedulers::replay::ReplayScheduler::{new_from_schedule, new_execution, next_task, next_u64}",
@@ -258,7 +260,8 @@ PROPERTIES["C20"] = {
 
 PROPERTIES["C08"] = {
     "level": "model_checking",
-    "jobs": [K("c08_metrics_wrapper_transparent", module="kp", timeout=600)],
+    "jobs": [K("c08_metrics_wrapper_transparent", module="kp", timeout=600),
+             K("c01_nd_checker_record_then_replay", module="kp", timeout=900)],
     "functions_encoded": ["shuttle_engine::scheduler::metrics::MetricsScheduler::{new, new_execution, next_task, next_u64, record_and_reset_metrics}"] + _DECISION_FUNCS,
     "bounds_text": "MetricsScheduler around an inner scheduler with symbolic answers: task lists [t2] and [t0,t2], any `current`, "
     "any is_yielding, any draw value, inner new_execution Some/None, across an execution boundary",
@@ -274,6 +277,7 @@ PROPERTIES["C13"] = {
     "jobs": [
         K("c13_budget_round_robin", module="kp", timeout=600),
         K("c13_budget_replay_once", module="kp", timeout=600),
+        K("c13_step_bound_arith", module="kp", timeout=600),
     ],
     "functions_encoded": ["shuttle_schedulers::round_robin::RoundRobinScheduler::{new, new_execution}",
                           "shuttle_schedulers::replay::ReplayScheduler::new_execution"] + _DECISION_FUNCS,
